@@ -76,6 +76,9 @@ structure Inst where
   loose     : List UnitIx := []       -- plan-all units that may spread over vehicles (model API only)
   nres      : Nat := 0
   -- option flags (true = constraint active)
+  /-- soft capacities (`objectives.capacities`, for resources whose capacity constraint is switched off): resource,
+  factor, penalty offset -/
+  soft       : List (Nat × Rat × Rat) := []
   cCapacity  : Bool := true
   cDistance  : Bool := true
   cMaxStops  : Bool := true
@@ -412,6 +415,24 @@ def objective (inst : Inst) (routes : List (List StopIx)) : Terms :=
   { vehDur := inst.fVehDur * vehDur, travel := inst.fTravel * travel, unplanned := inst.fUnplanned * unpl,
     activation := inst.fActivation * act, minStops := inst.fMinStops * minS,
     early := inst.fEarly * early, late := inst.fLate * late, balance := inst.fBalance * bal }
+
+/-- The soft-capacity terms (`Maximum` as an objective, model_maximum.go `Value`): per resource the excess over the
+vehicle's capacity — of the level at the END of the route when no quantity of the resource is negative, summed over EVERY
+stop of the vehicle (its first and its last stop included, so the final level counts twice) otherwise —, plus the penalty
+offset when the sum is positive; times the factor. Kept apart from `Terms` (the engine model has no such term). -/
+def softCap (inst : Inst) (routes : List (List StopIx)) : Rat :=
+  sumRat (inst.soft.map (fun (r, factor, offset) =>
+    let hasNeg := (List.range inst.stops.size).any (fun s => decide (((inst.stops.getD s {}).delta.getD r 0) < 0)) ||
+                  (List.range inst.vehicles.size).any (fun vi => decide (((inst.vehicles.getD vi {}).startLevel.getD r 0) < 0))
+    let score := sumRat ((List.range inst.vehicles.size).map (fun vi =>
+      let v := inst.vehicles.getD vi {}
+      let start := padTo inst.nres v.startLevel
+      let lv := levels inst v start (routes.getD vi [])
+      let cap := v.caps.getD r 0
+      let fin := (lv.getLast?.getD start).getD r 0
+      if hasNeg then sumRat (((start :: lv).map (fun l => max 0 (l.getD r 0 - cap))) ++ [max 0 (fin - cap)])
+      else max 0 (fin - cap)))
+    factor * (if score > 0 then score + offset else 0)))
 
 def Terms.total (t : Terms) : Rat :=
   t.vehDur + t.travel + t.unplanned + t.activation + t.minStops + t.early + t.late + t.balance
